@@ -327,6 +327,24 @@ fn p2_programs(tier: Tier) -> Vec<Program> {
         let source = render_p2(&spec);
         out.push(Program { idx: 0, label: "P2 mixed: tuple variants of arity 1 / 3 / 2 / 1 / 4(disabled), named fields whose names are prefixes of one another".into(), k: 2, spec, aux: json!({"p2": true}), source });
     }
+    // placeholders of a struct / tuple variant that name NO field but constants in scope (implicit capture, exactly as format!)
+    {
+        let mut spec = EnumSpec::base(0);
+        for (j, (kind, l)) in [
+            (Kind::Named(vec![NamedField { name: "attempt".into(), ty: FieldTy::U8, default_with: false }]), "timeout after {VF_LIMIT}{VF_UNIT}"),
+            (Kind::Named(vec![NamedField { name: "attempt".into(), ty: FieldTy::U8, default_with: false }]), "{attempt} of {VF_LIMIT:>5}"),
+        ]
+        .into_iter()
+        .enumerate()
+        {
+            let mut v = VariantSpec::unit(&format!("V{}", j));
+            v.kind = kind;
+            v.to_string = Some(l.to_string());
+            spec.variants.push(v);
+        }
+        let source = format!("#[allow(dead_code)]\nconst VF_LIMIT: u32 = 250;\n#[allow(dead_code)]\nconst VF_UNIT: &str = \"ms\";\n{}", render_p2(&spec));
+        out.push(Program { idx: 0, label: "P2 named variants whose placeholders name constants in scope".into(), k: 2, spec, aux: json!({"p2": true}), source });
+    }
     // a `default` variant with a placeholder to_string is formatted like any other interpolated variant
     for (label, kind, l) in [
         ("default tuple(String)", Kind::Tuple(vec![FieldTy::Str]), "other: {0}"),
